@@ -154,13 +154,15 @@ func (r *Receiver) registerMsg(ack msgReception, from uint16, msg Message) {
 		}
 	}
 
+	_, alreadyVouched := r.reception[ack].idSet[from]
 	r.reception[ack].idSet[from] = struct{}{}
 
 	if msg != nil {
 		r.reception[ack].m = msg
 	}
 
-	if len(r.reception[ack].idSet) == r.N-1 {
+	// Forward only once: when a new voucher completes the set
+	if !alreadyVouched && len(r.reception[ack].idSet) == r.N-1 {
 		r.Logger.Debugf("Collected enough acknowledgements (from %v) on {sender: %d, digest: %s, round: %d}",
 			r.reception[ack].idSet, ack.sender, hex.EncodeToString([]byte(ack.digest[:8])), ack.msgRound)
 		r.ForwardToBackend(r.reception[ack].m, ack.sender)
